@@ -83,7 +83,7 @@ class LitModel:
 def build(pid, P, R, tier, log_dir):
     import mirx_props as mp
     obs = []
-    if pid not in ("C07", "C04", "C06", "C17"):
+    if pid not in ("C07", "C04", "C06", "C17", "C11"):
         return obs
     PAREN_DEPTH = 2
 
@@ -181,7 +181,7 @@ def build(pid, P, R, tier, log_dir):
         shape = expr_shape(R, mp, right, model, PAREN_DEPTH)
         r["model"] = {"op": opn, "left": ltn, "right": rtn, "right_expr": shape}
         return finish_tc(r, "binary", opn, ltn, rtn, shape, log_dir)
-    if pid not in ("C06", "C17"):
+    if pid not in ("C06", "C17", "C11"):
         obs.append(mp.XOb("X-check_binary", "", "", run_check_binary))
 
     # ---- the const evaluator's binary arm (C07: one more phase that types arithmetic; C06: what it computes at compile time) -------
@@ -595,6 +595,113 @@ def build(pid, P, R, tier, log_dir):
         return r
     if pid == "C06":
         obs.append(mp.XOb("X-const_index", "", "", run_const_index))
+
+    # ---- cycle detection: one step of the per-const state machine (C06) -------------------------------------------------------------
+    def run_const_cycle():
+        t0 = time.time()
+        f = find_fn(P, "eval_const_by_name")
+        ex = setup()
+        ex.tolerate_unsupported = True
+        ex.recursion_bound = 0
+        ex.model_sequences = False
+        ex.summarize = SUMMARIZE + [r"::eval_const_expr$", r"HashMap::<.*>::(get|insert|contains_key)(::<.*>)?$", r"Vec::<.*>::(push|pop)$", r"as (std::clone::)?Clone>::clone$",
+                                    r"impl \[.*\]>::join", r"resolve_type$", r"freeze_const_annotation$", r"Display>::fmt", r"fmt::rt::Argument",
+                                    r"Arguments::<.*>::new", r"must_use", r"CompileError::\w+$", r"unknown_symbol$", r"Option::<.*>::cloned$"]
+        selfv = ex.sym_value("TypeChecker", "self")
+        outs = ex.run(f, [selfv, symex.Opaque("name"), symex.Opaque("stack")])
+        tn = [x[0] for x in R.resolve("TypeChecker").variants[0][1]]
+        f_state = f"sym<{selfv.child(None, tn.index('const_eval_state')).name}:"
+        f_cache = f"sym<{selfv.child(None, tn.index('const_eval_cache')).name}:"
+        f_errors = f"sym<{selfv.child(None, tn.index('errors')).name}:"
+        svars = mp.variants(R, "ConstEvalState")
+        bad, why, classes = [], [], {}
+        for o in outs:
+            if o.kind != "return":
+                bad.append(conj(o.pc)); why.append(f"{o.kind}: {o.info}")
+                continue
+            evs = o.events
+            names = [e[0] for e in evs]
+            cache_gets = [e for e in evs if e[0].endswith("HashMap::get") and e[1][0].startswith(f_cache)]
+            state_gets = [e for e in evs if e[0].endswith("HashMap::get") and e[1][0].startswith(f_state)]
+            state_ins = [(k_, e) for k_, e in enumerate(evs) if e[0].endswith("HashMap::insert") and e[1][0].startswith(f_state)]
+            cache_ins = [(k_, e) for k_, e in enumerate(evs) if e[0].endswith("HashMap::insert") and e[1][0].startswith(f_cache)]
+            evals = [k_ for k_, e in enumerate(evs) if e[0].endswith("eval_const_expr")]
+            errs = [e for e in evs if e[0].endswith("Vec::push") and e[1][0].startswith(f_errors)]
+            pushes = [k_ for k_, e in enumerate(evs) if e[0].endswith("Vec::push") and not e[1][0].startswith(f_errors)]
+            pops = [k_ for k_, e in enumerate(evs) if e[0].endswith("Vec::pop")]
+            v = ex.deref(o.value, o.state)
+            text = mirx.show(v, ex, o.state)
+            # the decisive facts of this path
+            def opt(evname):
+                fo = o.state.facts.get(f"{evname}!tag")
+                return None if not fo or fo[0] != "eq" else fo[1]
+            first_cache = cache_gets[0][2] if cache_gets else None
+            cached = opt(first_cache.replace("ev", "ev")) if first_cache else None
+            # the cache lookup result is cloned through a summarised call: follow it
+            cl = next((e for e in evs if e[0].endswith("cloned") and first_cache and f"sym<{first_cache}:" in e[1][0]), None)
+            hit = opt(cl[2]) if cl else cached
+            if hit == 1:
+                key = "cached"
+                ok = not state_ins and not evals and not errs
+            else:
+                st_name = None
+                if state_gets:
+                    # state = get(name).copied().unwrap_or(NotStarted)
+                    sg = state_gets[0][2]
+                    tag = opt(sg)
+                    if tag == 0:
+                        st_name = "NotStarted"
+                    elif tag == 1:
+                        fo = o.state.facts.get(f"{sg}.Some.0!tag")
+                        st_name = svars[fo[1]] if fo and fo[0] == "eq" else None
+                if st_name == "InProgress":
+                    key = "re-entered while in progress (cycle)"
+                    ok = bool(errs) and text.startswith("Option::None") and not evals and not state_ins
+                elif st_name == "Done":
+                    key = "done"
+                    ok = not evals and not state_ins and not errs
+                elif st_name == "NotStarted":
+                    if evals:
+                        key = "first evaluation"
+                        marks = [k_ for k_, e in state_ins]
+                        ins_vals = [e[1][2] for _, e in state_ins]
+                        ok = (len(state_ins) == 2 and "InProgress" in ins_vals[0] and "Done" in ins_vals[1] and marks[0] < evals[0] < marks[1]
+                              and len(evals) == 1 and pushes and pushes[0] < evals[0] and pops and pops[0] > evals[0])
+                        # cached iff a result exists
+                        res_ev = evs[evals[0]][2]
+                        got = opt(res_ev)
+                        ok = ok and ((got == 1) == bool(cache_ins)) if got is not None else ok
+                    else:
+                        key = "unknown const"
+                        ok = bool(errs) and text.startswith("Option::None") and not state_ins
+                else:
+                    key, ok = "state not examined", False
+            classes[key] = classes.get(key, 0) + 1
+            if not ok:
+                bad.append(conj(o.pc)); why.append(f"{key}: events {[n.split('::')[-1] for n in names]} -> {text[:80]}")
+        r = {"id": "X-const_cycle", "engine": "E2-X mirsmt",
+             "statement": "one step of the const evaluator's per-name state machine: a cached const is returned; a const requested while its own evaluation is "
+                          "in progress is ALWAYS reported as a dependency cycle (error, no value, no further evaluation - wherever on the stack the cycle "
+                          "closes); a not-started const is marked in-progress BEFORE its initializer is evaluated, marked done after, and cached iff it has "
+                          "a result - so every cycle re-enters an in-progress name and is reported instead of looping",
+             "bound": "TypeChecker::eval_const_by_name with every answer of the cache / state / declaration lookups and of the initializer's evaluation "
+                      "arbitrary; one inductive step (the recursion through eval_const_expr is summarised)",
+             "encoding": "map lookups and the recursive evaluation as events with arbitrary results", "functions_encoded": [n + " (MIR)" for n in ex.encoded],
+             "paths": len(outs), "compositions": classes}
+        r["wall_s"] = round(time.time() - t0, 2)
+        need = {"cached", "re-entered while in progress (cycle)", "first evaluation", "unknown const"}
+        if not need <= set(classes):
+            r["deviating_path"] = f"not every case was reached ({classes}); {(why or ['-'])[0][:200]}"
+            return finish_const_cycle(r, log_dir)
+        r["vacuity_ok"] = True
+        for b_, w_ in zip(bad, why):
+            if b_ != "false" and solver.check(mp.smt_lines(ex, [b_]), [], "z3", 60).status != "unsat":
+                r["deviating_path"] = w_
+                return finish_const_cycle(r, log_dir)
+        r.update(status="held", solver=f"{len(outs)} paths follow the state machine" + (f"; {len(bad)} deviating paths infeasible" if bad else " (syntactic)"))
+        return r
+    if pid == "C06":
+        obs.append(mp.XOb("X-const_cycle", "", "", run_const_cycle))
     if pid == "C06":
         return obs
 
@@ -676,6 +783,82 @@ def build(pid, P, R, tier, log_dir):
     obs.append(mp.XOb("X-compound_assign", "", "", run_compound))
 
 
+    # ---- C11: the checker's indexing / field-access arms are total (no out-of-bounds index, no overflow) ---------------------------------
+    def run_access_total():
+        t0 = time.time()
+        results, encoded, npaths, classes = [], [], 0, {}
+        for fname, ty_var in (("check_field", "base_ty"), ("check_index", "index_ty")):
+            f = find_fn(P, fname)
+            loc, entry = entry_after_call(f, ty_var, r"check_expr")
+            ex = setup()
+            ex.tolerate_unsupported = True
+            ex.model_sequences = True
+            ex.seq_bound = 3
+            ex.recursion_bound = 0
+            ex.max_steps = 3000
+            ex.summarize = SUMMARIZE + [r"impl str>::parse::<.*>$", r"trait_required_field_type$", r"lookup_type_info$", r"HashMap::<.*>::(get|contains_key)(::<.*>)?$",
+                                        r"Vec::<.*>::contains$", r"collection_type_id$", r"is_intlike_for_index$", r"is_frozen_str$", r"Display>::fmt",
+                                        r"ToString>::to_string$", r"const_from_str$", r"PartialEq.*>::(eq|ne)$", r"as (std::clone::)?Clone>::clone$"]
+            selfv = ex.sym_value("TypeChecker", "self")
+            base = ex.sym_value("incan_syntax::ast::Spanned<incan_syntax::ast::Expr>", "base")
+            tyv = ex.sym_value("symbols::ResolvedType", ty_var)
+            preset = {loc: tyv}
+            if fname == "check_field":
+                args = [selfv, base, symex.Opaque("field"), symex.Opaque("span")]
+            else:
+                index = ex.sym_value("incan_syntax::ast::Spanned<incan_syntax::ast::Expr>", "index")
+                args = [selfv, base, index, symex.Opaque("span")]
+                lb = f.debug.get("base_ty")
+                if lb is None:
+                    raise Inconclusive("check_index: no local `base_ty` any more")
+                preset[lb] = ex.sym_value("symbols::ResolvedType", "base_ty")
+            outs = ex.run_slice(f, entry, preset, args)
+            encoded += ex.encoded
+            npaths += len(outs)
+            lbad = []
+            for o in outs:
+                if o.kind == "unsupported":
+                    lbad.append((conj(o.pc), f"{fname}: unsupported MIR: {o.info}"))
+                elif o.kind != "return":
+                    lbad.append((conj(o.pc), f"{fname}: {o.info}"))
+                else:
+                    classes[fname] = classes.get(fname, 0) + 1
+            results.append((fname, ex, lbad, outs))
+        r = {"id": "X-tc_access_total", "engine": "E2-X mirsmt (slice)",
+             "statement": "type checker, `base[i]` and `base.field`: for every receiver type (tuples and generic collections with 0..=3 element / argument "
+                          "types), every index literal / parsed positional field number and every answer of the symbol-table lookups, the rule body "
+                          "returns a type - no out-of-bounds index into the element list, no arithmetic overflow, no unwrap on None",
+             "bound": "TypeChecker::check_field and check_index from the point where the receiver (and index) type is known; tuple / argument lists as "
+                      "symbolic sequences of 0..=3; the literal tuple index is any i64 >= 0 (lexer), the parsed field number any usize; symbol-table "
+                      "lookups and diagnostics constructors are uninterpreted",
+             "encoding": "types as symbolic ADTs, element lists as symbolic sequences, MIR assert terminators and modelled indexing as the panic conditions",
+             "functions_encoded": sorted(set(n + " (MIR)" for n in encoded)), "paths": npaths, "compositions": classes}
+        r["wall_s"] = round(time.time() - t0, 2)
+        if set(classes) != {"check_field", "check_index"}:
+            r.update(status="inconclusive", reason=f"no returning path for {sorted({'check_field', 'check_index'} - set(classes))}")
+            return r
+        r["vacuity_ok"] = True
+        queries = 0
+        for fname, ex, lbad, outs in results:
+            live = [(b_, w_) for b_, w_ in lbad if b_ != "false"]
+            if not live:
+                continue
+            res = solver.check(mp.smt_lines(ex, [disj([b_ for b_, _ in live])]), [], "z3", 120)
+            queries += 1
+            if res.status == "unsat":
+                continue
+            for b_, w_ in live:
+                res = solver.check(mp.smt_lines(ex, [b_]), [], "z3", 60)
+                queries += 1
+                if res.status != "unsat":
+                    r["deviating_path"] = w_
+                    return finish_access_total(r, log_dir)
+        r.update(status="held", solver=f"{npaths} paths, no feasible panic ({queries} z3 queries)")
+        r["wall_s"] = round(time.time() - t0, 2)
+        return r
+    if pid == "C11":
+        return [mp.XOb("X-tc_access_total", "", "", run_access_total)]
+
     # ---- nominal typing of user-named types (C17: distinct newtypes are never interchangeable) ----------------------------------
     def run_nominal():
         t0 = time.time()
@@ -720,13 +903,19 @@ def build(pid, P, R, tier, log_dir):
             sl_ev = next((e[2] for e in o.events if e[0].endswith("stringlike_type_id") and a.child("Named", 0).name in " ".join(e[1])), None)
 
             def is_frozen(which):
-                # the answer of `stringlike_type_id(name) == Some(which)` on this path (the comparison is a summarised call)
+                # `stringlike_type_id(name) == Some(which)`: the lookup is a summarised call, the comparison is structural on its result
                 if sl_ev is None:
                     return "false"
-                for e in o.events:
+                for e in o.events:       # (older shape: the comparison itself summarised)
                     if e[0].endswith("::eq") and f"sym<{sl_ev}:" in e[1][0] and which in e[1][1] and "Some" in e[1][1]:
                         return e[2]
-                return "false"
+                t1, t2 = f"{sl_ev}!tag", f"{sl_ev}.Some.0!tag"
+                decl = {d.split()[1] for d in ex.enc.decls}
+                for t_, hi in ((t1, 2), (t2, len(sl))):
+                    if t_ not in decl:
+                        ex.enc.decls.append(f"(declare-const {t_} Int)")
+                        ex.enc.side.append(f"(and (<= 0 {t_}) (< {t_} {hi}))")
+                return f"(and (= {t1} 1) (= {t2} {sl.index(which)}))"
             sn = same_name if (same_name is not None) else "false"
             doc = (f"(ite (= {bt} {NAMED}) {sn} (ite (= {bt} {rvars.index('Str')}) {is_frozen('FrozenStr')} "
                    f"(ite (= {bt} {rvars.index('Bytes')}) {is_frozen('FrozenBytes')} false)))")
@@ -1189,6 +1378,67 @@ def finish_nominal(r, log_dir):
     return r
 
 
+ACCESS_PROGRAMS = ["def f() -> int:\n    t = ()\n    return t.0\n", "def f() -> int:\n    return ().0\n", "def f() -> int:\n    t = (1, 2)\n    return t.2\n",
+                   "def f() -> int:\n    t = (1, 2)\n    return t.1\n", "def f() -> int:\n    t = (1, 2)\n    return t[2]\n", "def f() -> int:\n    t = (1, 2)\n    return t[1]\n",
+                   "def f() -> int:\n    t = ()\n    return t[0]\n", "def f(t: Tuple[int, str]) -> int:\n    return t[5]\n", "def f(t: Tuple) -> int:\n    return t[0]\n",
+                   "def f(x: List) -> int:\n    return x[0]\n", "def f(x: Dict[str]) -> int:\n    return x[0]\n", "def f(t: Tuple[int, str]) -> int:\n    return t.7\n",
+                   "def f() -> int:\n    t = (1,)\n    return t.18446744073709551615\n", "def f() -> int:\n    t = (1, 2)\n    return t[9223372036854775807]\n"]
+
+
+def finish_access_total(r, log_dir):
+    texts, broken = [], False
+    for k, src in enumerate(ACCESS_PROGRAMS):
+        res, _ = native_typecheck(src, log_dir, f"access_{k}")
+        for prof, line in res.items():
+            if line.startswith("PANIC") or not line.startswith(("ACCEPTED", "REJECTED", "PARSE-ERROR", "LEX-ERROR")):
+                broken = True
+                texts.append(f"[{prof}] type-checking `{src.strip().splitlines()[-1].strip()}` (program {k}) panics: {line[:100]}")
+    text = "; ".join(texts[:4]) or f"{len(ACCESS_PROGRAMS)} tuple / collection access programs (empty tuples, out-of-range and huge indexes, bare generic names) are checked without a panic"
+    r["native"] = text
+    if broken:
+        os.makedirs(os.path.join(common.REPLAYS_DIR, "MIRX"), exist_ok=True)
+        rp = os.path.join(common.REPLAYS_DIR, "MIRX", r["id"] + ".replay")
+        with open(rp, "w") as fh:
+            fh.write(f"mirx accesstotal\n# {r['statement']}\n# {r.get('deviating_path')}\n# {text}\n")
+        r.update(status="violated", replay=rp, counterexample={"path": r.get("deviating_path"), "native": text})
+    else:
+        r.update(status="inconclusive", reason=f"a feasible path panics ({r.get('deviating_path')}) but {text}")
+    return r
+
+
+CYCLE_PROGRAMS = [
+    ("self", "const A: int = A + 1\n", "REJECTED"),
+    ("pair", "const A: int = B + 1\nconst B: int = A + 1\n", "REJECTED"),
+    ("tail_into_cycle", "const T: int = R * 2\nconst R: int = B + 1\nconst B: int = R + 1\n", "REJECTED"),
+    ("cycle_then_user", "const R: int = B + 1\nconst B: int = R + 1\nconst T: int = R * 2\n", "REJECTED"),
+    ("three", "const A: int = B + 1\nconst B: int = C + 1\nconst C: int = A + 1\n", "REJECTED"),
+    ("chain_ok", "const A: int = B + 1\nconst B: int = C + 1\nconst C: int = 5\n", "ACCEPTED"),
+    ("diamond_ok", "const A: int = B + C\nconst B: int = D + 1\nconst C: int = D + 2\nconst D: int = 5\n", "ACCEPTED"),
+]
+
+
+def finish_const_cycle(r, log_dir):
+    texts, broken = [], False
+    for name, src, exp in CYCLE_PROGRAMS:
+        res, _ = native_typecheck(src, log_dir, "cycle_" + name)
+        for prof, line in res.items():
+            okl = line.startswith(exp) and (exp == "ACCEPTED" or "cycle" in line.lower())
+            if not okl:
+                broken = True
+                texts.append(f"[{prof}] {name}: expected {exp}{' with a cycle diagnostic' if exp == 'REJECTED' else ''}, checker says {line[:140]}")
+    text = "; ".join(texts) or f"{len(CYCLE_PROGRAMS)} const dependency graphs (cycles closing on and off the first const, chains, diamonds) are reported / accepted as documented"
+    r["native"] = text
+    if broken:
+        os.makedirs(os.path.join(common.REPLAYS_DIR, "MIRX"), exist_ok=True)
+        rp = os.path.join(common.REPLAYS_DIR, "MIRX", r["id"] + ".replay")
+        with open(rp, "w") as fh:
+            fh.write(f"mirx constcycle\n# {r['statement']}\n# {r.get('deviating_path')}\n# {text}\n")
+        r.update(status="violated", replay=rp, counterexample={"path": r.get("deviating_path"), "native": text})
+    else:
+        r.update(status="inconclusive", reason=f"a feasible path deviates ({r.get('deviating_path')}) but {text}")
+    return r
+
+
 CONST_INDEXES = [("S[0]", 'FrozenStr("h")'), ("S[4]", 'FrozenStr("o")'), ("S[-1]", 'FrozenStr("o")'), ("S[-5]", 'FrozenStr("h")'), ("S[5]", "ERR"),
                  ("S[-6]", "ERR"), ("S[-10]", "ERR"), ("S[99]", "ERR")]
 
@@ -1337,6 +1587,14 @@ def replay_tc(pid, line):
         bad, text = const_values_native(log_dir)
         say(text)
         return bad
+    if line[1] == "accesstotal":
+        r = finish_access_total({"id": "replay", "statement": ""}, log_dir)
+        say(r.get("native", ""))
+        return r.get("status") == "violated"
+    if line[1] == "constcycle":
+        r = finish_const_cycle({"id": "replay", "statement": ""}, log_dir)
+        say(r.get("native", ""))
+        return r.get("status") == "violated"
     if line[1] == "constindex":
         bad, text = const_index_native(log_dir)
         say(text)
